@@ -221,6 +221,10 @@ func (server *SugarDB) setValues(ctx context.Context, entries map[string]interfa
 		expireAt := time.Time{}
 		if _, ok := server.store[database][key]; ok {
 			expireAt = server.store[database][key].ExpireAt
+			// A value written over an entry that has already expired is a new key: it must not inherit the old expiry time.
+			if expireAt != (time.Time{}) && expireAt.Before(server.clock.Now()) {
+				expireAt = time.Time{}
+			}
 		}
 		server.store[database][key] = internal.KeyData{
 			Value:    value,
